@@ -1454,3 +1454,17 @@ func dnfEffEquiv(d dnf, later []dnf, want dnf) bool {
 	}
 	return true
 }
+
+// dnfAnd: a ∧ b.
+func dnfAnd(a, b dnf) dnf {
+	out := dnf{unknown: a.unknown || b.unknown}
+	for _, x := range a.cs {
+		for _, y := range b.cs {
+			if m, ok := conjMerge(x, y); ok {
+				out.cs = append(out.cs, m)
+			}
+		}
+	}
+	out.cs = simplify(out.cs)
+	return out
+}
